@@ -611,7 +611,9 @@ def run(ctx):
                               ('Gen_RadixCycle.v', sel2coq.translate_cycle, 'cycle-leader permutation of pvRadixSort'),
                               ('Gen_HsGuards.v', sel2coq.translate_guards, 'entry guards of pvFindHash / pvIsSorted'),
                               ('Gen_FindHash.v', sel2coq.translate_findhash, 'interpolation loop of pvFindHash'),
-                              ('Gen_Group.v', sel2coq.translate_group, 'HashSorter::pvGroup')):
+                              ('Gen_Group.v', sel2coq.translate_group, 'HashSorter::pvGroup'),
+                              ('Gen_Searches.v', sel2coq.translate_searches, 'pvBinarySearch, pvExponentialSearch'),
+                              ('Gen_GroupLambda.v', sel2coq.translate_group_lambda, 'group callback of HashSorter::pvSort')):
         gpath = os.path.join(ctx.cdir, gname)
         try:
             txt = gfun(repo=ctx.repo)
